@@ -222,7 +222,7 @@ def problem_case(
     max_props=3,
     max_arity=4,
     max_points=20000,
-    profiles=("general", "general", "bool", "perm", "nonneg", "wide"),
+    profiles=("general", "general", "bool", "perm", "nonneg", "wide", "onedir"),
     allow_zero_cap=True,
     extra_vars=True,
     min_props=1,
@@ -246,7 +246,7 @@ def problem_case(
         # posting order is part of the input
         case["props"] = list(draw(st.permutations(case["props"])))
         return case
-    ns = draw(st.integers(1, max_shr if profile != "wide" else min(3, max_shr)))
+    ns = draw(st.integers(1, max_shr if profile != "wide" else min(3, max_shr))) if profile != "onedir" else draw(st.integers(2, min(4, max(2, max_shr))))
     shr = []
     size = 1
     for _ in range(ns):
@@ -260,6 +260,8 @@ def problem_case(
                 d = [d[0] - a, d[1] - a]  # non-negative: cost heuristics applicable
         elif profile == "nonneg":
             d = draw(interval(0, 4, max_w))
+        elif profile == "onedir":
+            d = [0, draw(st.integers(1, 3))]
         else:
             d = draw(interval(-3, 4, max_w))
         if size * (d[1] - d[0] + 1) > max_points:
@@ -283,6 +285,10 @@ def problem_case(
     types = GENERAL_TYPES + (BOOL_TYPES * 3 if profile == "bool" else BOOL_TYPES)
     if profile == "wide":
         types = types + ONE_DIRECTIONAL_TYPES * 3  # constraints that watch one bound only
+    if profile == "onedir":
+        # webs of constraints that each watch one bound only: a missed or misdirected wake-up is not healed by another event
+        types = ONE_DIRECTIONAL_TYPES * 4 + ["affine_eq", "alldifferent", "max_eq", "min_eq"]
+        min_props, max_props = max(min_props, 3), max(max_props, 6)
     for _ in range(draw(st.integers(min_props, max_props))):
         case["props"].append(draw(propagator_on(case, types, max_arity, allow_zero_cap)))
     if len(idx) > 1 and draw(st.integers(0, 2)) == 0:
